@@ -33,7 +33,9 @@ TECHNIQUE = ("per-configuration fact extraction (build matrix); use-classificati
 GENERATED = ("MAX_ALLOWED_HSS_LEVELS", "TREE_HEIGHTS", "WINTERNITZ_PARAMETERS", "MAX_TREE_HEIGHT", "MIN_WINTERNITZ_PARAMETER")
 
 # (levels, heights, winternitz): limits that differ per level, single level, mixed, uniform, minimum heights with 8 levels
-MATRIX_QUICK = [(2, [5, 5], [4, 2]), (1, [5], [8])]
+# the third quick configuration has a smaller number after a larger one in both lists (the derived MAX / MIN constants must be
+# numeric extrema, whatever the order and the textual form)
+MATRIX_QUICK = [(2, [5, 5], [4, 2]), (1, [5], [8]), (2, [10, 5], [8, 4])]
 MATRIX_THOROUGH = MATRIX_QUICK + [(2, [5, 5], [4, 4]), (3, [10, 5, 5], [2, 4, 8]), (8, [5] * 8, [8] * 8), (4, [15, 10, 10, 5], [1, 2, 4, 8])]
 
 CMP = ("Lt", "Le", "Gt", "Ge", "Eq", "Ne")
@@ -409,6 +411,10 @@ def run_one(args):
     L = F.const_val("constants::MAX_ALLOWED_HSS_LEVELS")
     chk.ob("V5.configuration-applied", name, L == lv and list(F.const_array("constants::TREE_HEIGHTS") or []) == list(hs) and list(F.const_array("constants::WINTERNITZ_PARAMETERS") or []) == list(ws),
            "extracted constants do not match the requested configuration (levels %s)" % L)
+    mh, mw = F.const_val("constants::MAX_TREE_HEIGHT"), F.const_val("constants::MIN_WINTERNITZ_PARAMETER")
+    chk.ob("V5.derived-limits-are-the-extrema", name, mh == max(hs) and mw == min(ws),
+           "the build script derived MAX_TREE_HEIGHT = %s / MIN_WINTERNITZ_PARAMETER = %s from heights %s / Winternitz parameters %s (expected %d / %d): "
+           "buffers sized by them are too small for keys the per-level limits accept" % (mh, mw, hs, ws, max(hs), min(ws)))
     api_entries = A.entries_keygen() + A.entries_sign_plain() + A.entries_lifetime() + A.entries_key_constructors() + A.entries_verify() + A.entries_constructors()
     tree = F.reachable(api_entries)
     dep = v1_limit_uses(chk, F, F0, tree, tag)
